@@ -814,7 +814,14 @@ class SqlalchemyRender:
         try:
             stmt, params = self.get_query(ast_query, with_params=with_params)
 
-            sql = render_func(stmt, self.dialect, backslash_escapes=self.backslash_escapes)
+            try:
+                sql = render_func(stmt, self.dialect, backslash_escapes=self.backslash_escapes)
+            except (SQLAlchemyError, NotImplementedError):
+                raise
+            except Exception as e:
+                # a dialect's compiler can break on a construct it was not written for
+                #  (mysql: "VARBINARY(%d)" without a length): that is a statement it cannot compile
+                raise sa.exc.CompileError(f'{type(e).__name__}: {e}') from e
 
             return sql, params
 
